@@ -8,13 +8,18 @@ use crate::val::Val;
 pub const U64MAX: u64 = u64::MAX;
 
 pub fn ent(len: u64) -> EntityCfg {
-    EntityCfg { len, etag: None, mtime_ns: None, hdrs: vec![], recipes: vec![], default_recipe: vec![Op::RestOrFault] }
+    EntityCfg { len, etag: None, mtime_ns: None, hdrs: vec![], recipes: vec![], default_recipe: vec![Op::RestOrFault], split: false }
 }
 
 pub fn case(ent: EntityCfg, method: &str, headers: Vec<(String, Vec<u8>)>, class: String) -> ServeCase {
     let mut hints = vec![];
     if let Some((_, v)) = headers.iter().find(|(k, _)| k == "range") {
         hints.push(range_hint(v));
+    }
+    // every other case: the entity hands its chunks over as two non-contiguous pieces (hint 8)
+    static COUNTER: std::sync::atomic::AtomicU64 = std::sync::atomic::AtomicU64::new(0);
+    if COUNTER.fetch_add(1, std::sync::atomic::Ordering::Relaxed) % 2 == 1 {
+        hints.push(Val::L(vec![Val::N(8), Val::N(1)]));
     }
     ServeCase { ent, method: method.as_bytes().to_vec(), headers, extra_polls: 2, max_polls: 400, class, hints: Val::L(hints) }
 }
